@@ -54,6 +54,8 @@ def run(chk):
         closed = vlib.closure(chk, heap.NAME, c_exe, m_exe, [], heap.closure_alphabet(7 if quick else 9, 3),
                               max_depth=40, max_states=20000, oracle=heap.oracle, state_of=heap.closure_state) and closed
         vlib.run_scripts(chk, heap, c_exe, m_exe, heap.clear_scripts(chk.rng, 9 if quick else 33), heap.oracle)
+    from areas import hashtree_tie
+    hashtree_tie.tie_run(chk, "tree3")
     chk.exhaustive = closed
     chk.extra["scope"] = ("clear (callback frees/poisons the element) applied in every container state of the small-scope "
                           "closures of slist, dlist (<= 5 elements, 1-2 lists), bintree, rbtree (<= 6-8 elements / 3 keys), "
